@@ -211,7 +211,9 @@ impl Check for C08 {
             distinct_keys: true,
             key_hex_ctx: Ctx::Segwitv0,
             named_keys: false,
-            consistent_locks: true,
+            // a quarter of the policies mix height and time locks of one kind: the compiler must
+            // refuse them or still produce a sane script
+            consistent_locks: !src.chance(1, 4),
             max_weight: 127,
             allow_thresh: true,
             binary: true,
